@@ -7,9 +7,13 @@
    together with its mode, so that a data race is a state predicate (NoRace).
    Variant = "code" is the implementation; the others are plausible slips:
    "fail_nolock" (fail() without t.mu), "ctx_norecheck" (Context() creates
-   without re-checking under the lock), "reg_rlock" (Cleanup() under RLock). *)
+   without re-checking under the lock), "reg_rlock" (Cleanup() under RLock),
+   "pop_stale" (cleanup() looks at the length under the read lock and pops
+   that index under the write lock). *)
 EXTENDS Integers, Sequences, FiniteSets, TLC
-CONSTANTS Workers, Ops, Variant
+CONSTANTS Workers, Ops, Variant,
+          Late      \* TRUE: the test goroutine does not join the workers before cleanup(); its first-registered cleanup function does
+                    \* (goroutines still registering cleanups while the engine already runs the test case's cleanups)
 Main == 0
 Procs == Workers \cup {Main}
 
@@ -95,9 +99,13 @@ fair process w \in Workers begin
   fin:  done := done \cup {self};
 end process;
 
-fair process main \in {Main} begin
+fair process main \in {Main} variable n = 0; begin
   m0: call Context();
-  join: await done = Workers;
+  m1: if Late then
+        \* t.Cleanup(func() { join }) registered by the property before it starts its goroutines' work
+        cleanups := <<Main>>; registered := {Main};
+      end if;
+  join: await Late \/ done = Workers;
   \* failOnError
   e1: RLock();
   e2: Begin("failed", "r");
@@ -110,22 +118,33 @@ fair process main \in {Main} begin
   u3: if ctx # 0 then cancelled := cancelled \cup {ctx}; ctx := 0; end if; End("ctx", "w");
   u4: Unlock();
   loop: while TRUE do
+    p0: if Variant = "pop_stale" then
+          RLock();
+          s1: Begin("cleanups", "r");
+          s2: n := Len(cleanups); End("cleanups", "r");
+          s3: RUnlock();
+        end if;
     p1: Lock();
     p2: Begin("cleanups", "w");
-    p3: if Len(cleanups) > 0 then
-          ran := Append(ran, cleanups[Len(cleanups)]);
-          cleanups := SubSeq(cleanups, 1, Len(cleanups) - 1);
+    p3: if Variant # "pop_stale" then n := Len(cleanups); end if;
+        if n > 0 then
+          ran := Append(ran, cleanups[n]);
+          cleanups := SubSeq(cleanups, 1, n - 1);
           End("cleanups", "w");
         else
           End("cleanups", "w");
           goto u9;
         end if;
     p4: Unlock();
+    \* the cleanup function runs outside the lock; the property's first-registered one joins the goroutines
+    p5: if ran[Len(ran)] = Main then
+          await done = Workers;
+        end if;
   end while;
   u9: Unlock(); cleaning := FALSE;
 end process;
 end algorithm; *)
-\* BEGIN TRANSLATION (chksum(pcal) = "fd3185d4" /\ chksum(tla) = "54e60039")
+\* BEGIN TRANSLATION
 VARIABLES pc, writer, readers, ctx, nextCtx, cancelled, cleaning, failed, 
           cleanups, ran, acc, op, got, signalled, done, verdictFailed, 
           registered, stack
@@ -140,11 +159,11 @@ CleanupOnce == Finished => /\ { ran[i] : i \in 1..Len(ran) } = registered
                            /\ \A i, j \in 1..Len(ran) : ran[i] = ran[j] => i = j
 AllCancelled == Finished => \A p \in Procs : got[p] > 0 => got[p] \in cancelled
 
-VARIABLE c
+VARIABLES c, n
 
 vars == << pc, writer, readers, ctx, nextCtx, cancelled, cleaning, failed, 
            cleanups, ran, acc, op, got, signalled, done, verdictFailed, 
-           registered, stack, c >>
+           registered, stack, c, n >>
 
 ProcSet == (Workers) \cup ({Main})
 
@@ -167,6 +186,8 @@ Init == (* Global variables *)
         /\ registered = {}
         (* Procedure Context *)
         /\ c = [ self \in ProcSet |-> 0]
+        (* Process main *)
+        /\ n = [self \in {Main} |-> 0]
         /\ stack = [self \in ProcSet |-> << >>]
         /\ pc = [self \in ProcSet |-> CASE self \in Workers -> "pick"
                                         [] self \in {Main} -> "m0"]
@@ -180,14 +201,14 @@ f1(self) == /\ pc[self] = "f1"
             /\ pc' = [pc EXCEPT ![self] = "f2"]
             /\ UNCHANGED << readers, ctx, nextCtx, cancelled, cleaning, failed, 
                             cleanups, ran, acc, op, got, signalled, done, 
-                            verdictFailed, registered, stack, c >>
+                            verdictFailed, registered, stack, c, n >>
 
 f2(self) == /\ pc[self] = "f2"
             /\ acc' = [acc EXCEPT !["failed"] = acc["failed"] \cup {<<self, "w">>}]
             /\ pc' = [pc EXCEPT ![self] = "f3"]
             /\ UNCHANGED << writer, readers, ctx, nextCtx, cancelled, cleaning, 
                             failed, cleanups, ran, op, got, signalled, done, 
-                            verdictFailed, registered, stack, c >>
+                            verdictFailed, registered, stack, c, n >>
 
 f3(self) == /\ pc[self] = "f3"
             /\ failed' = TRUE
@@ -196,7 +217,7 @@ f3(self) == /\ pc[self] = "f3"
             /\ pc' = [pc EXCEPT ![self] = "f4"]
             /\ UNCHANGED << writer, readers, ctx, nextCtx, cancelled, cleaning, 
                             cleanups, ran, op, got, done, verdictFailed, 
-                            registered, stack, c >>
+                            registered, stack, c, n >>
 
 f4(self) == /\ pc[self] = "f4"
             /\ IF Variant # "fail_nolock"
@@ -207,7 +228,7 @@ f4(self) == /\ pc[self] = "f4"
             /\ stack' = [stack EXCEPT ![self] = Tail(stack[self])]
             /\ UNCHANGED << readers, ctx, nextCtx, cancelled, cleaning, failed, 
                             cleanups, ran, acc, op, got, signalled, done, 
-                            verdictFailed, registered, c >>
+                            verdictFailed, registered, c, n >>
 
 Errorf(self) == f1(self) \/ f2(self) \/ f3(self) \/ f4(self)
 
@@ -217,14 +238,14 @@ c1(self) == /\ pc[self] = "c1"
             /\ pc' = [pc EXCEPT ![self] = "c2"]
             /\ UNCHANGED << writer, ctx, nextCtx, cancelled, cleaning, failed, 
                             cleanups, ran, acc, op, got, signalled, done, 
-                            verdictFailed, registered, stack, c >>
+                            verdictFailed, registered, stack, c, n >>
 
 c2(self) == /\ pc[self] = "c2"
             /\ acc' = [acc EXCEPT !["ctx"] = acc["ctx"] \cup {<<self, "r">>}]
             /\ pc' = [pc EXCEPT ![self] = "c3"]
             /\ UNCHANGED << writer, readers, ctx, nextCtx, cancelled, cleaning, 
                             failed, cleanups, ran, op, got, signalled, done, 
-                            verdictFailed, registered, stack, c >>
+                            verdictFailed, registered, stack, c, n >>
 
 c3(self) == /\ pc[self] = "c3"
             /\ c' = [c EXCEPT ![self] = ctx]
@@ -232,14 +253,14 @@ c3(self) == /\ pc[self] = "c3"
             /\ pc' = [pc EXCEPT ![self] = "c4"]
             /\ UNCHANGED << writer, readers, ctx, nextCtx, cancelled, cleaning, 
                             failed, cleanups, ran, op, got, signalled, done, 
-                            verdictFailed, registered, stack >>
+                            verdictFailed, registered, stack, n >>
 
 c4(self) == /\ pc[self] = "c4"
             /\ readers' = readers \ {self}
             /\ pc' = [pc EXCEPT ![self] = "c5"]
             /\ UNCHANGED << writer, ctx, nextCtx, cancelled, cleaning, failed, 
                             cleanups, ran, acc, op, got, signalled, done, 
-                            verdictFailed, registered, stack, c >>
+                            verdictFailed, registered, stack, c, n >>
 
 c5(self) == /\ pc[self] = "c5"
             /\ IF c[self] # 0
@@ -251,7 +272,7 @@ c5(self) == /\ pc[self] = "c5"
                        /\ UNCHANGED << got, stack, c >>
             /\ UNCHANGED << writer, readers, ctx, nextCtx, cancelled, cleaning, 
                             failed, cleanups, ran, acc, op, signalled, done, 
-                            verdictFailed, registered >>
+                            verdictFailed, registered, n >>
 
 c6(self) == /\ pc[self] = "c6"
             /\ IF cleaning
@@ -263,7 +284,7 @@ c6(self) == /\ pc[self] = "c6"
                        /\ UNCHANGED << got, stack, c >>
             /\ UNCHANGED << writer, readers, ctx, nextCtx, cancelled, cleaning, 
                             failed, cleanups, ran, acc, op, signalled, done, 
-                            verdictFailed, registered >>
+                            verdictFailed, registered, n >>
 
 c7(self) == /\ pc[self] = "c7"
             /\ writer = -1 /\ readers = {}
@@ -271,14 +292,14 @@ c7(self) == /\ pc[self] = "c7"
             /\ pc' = [pc EXCEPT ![self] = "c8"]
             /\ UNCHANGED << readers, ctx, nextCtx, cancelled, cleaning, failed, 
                             cleanups, ran, acc, op, got, signalled, done, 
-                            verdictFailed, registered, stack, c >>
+                            verdictFailed, registered, stack, c, n >>
 
 c8(self) == /\ pc[self] = "c8"
             /\ acc' = [acc EXCEPT !["ctx"] = acc["ctx"] \cup {<<self, "r">>}]
             /\ pc' = [pc EXCEPT ![self] = "c9"]
             /\ UNCHANGED << writer, readers, ctx, nextCtx, cancelled, cleaning, 
                             failed, cleanups, ran, op, got, signalled, done, 
-                            verdictFailed, registered, stack, c >>
+                            verdictFailed, registered, stack, c, n >>
 
 c9(self) == /\ pc[self] = "c9"
             /\ c' = [c EXCEPT ![self] = ctx]
@@ -286,7 +307,7 @@ c9(self) == /\ pc[self] = "c9"
             /\ pc' = [pc EXCEPT ![self] = "c10"]
             /\ UNCHANGED << writer, readers, ctx, nextCtx, cancelled, cleaning, 
                             failed, cleanups, ran, op, got, signalled, done, 
-                            verdictFailed, registered, stack >>
+                            verdictFailed, registered, stack, n >>
 
 c10(self) == /\ pc[self] = "c10"
              /\ IF c[self] = 0 \/ Variant = "ctx_norecheck"
@@ -297,7 +318,7 @@ c10(self) == /\ pc[self] = "c10"
              /\ UNCHANGED << writer, readers, ctx, nextCtx, cancelled, 
                              cleaning, failed, cleanups, ran, op, got, 
                              signalled, done, verdictFailed, registered, stack, 
-                             c >>
+                             c, n >>
 
 c11(self) == /\ pc[self] = "c11"
              /\ ctx' = nextCtx
@@ -307,7 +328,7 @@ c11(self) == /\ pc[self] = "c11"
              /\ pc' = [pc EXCEPT ![self] = "c12"]
              /\ UNCHANGED << writer, readers, cancelled, cleaning, failed, 
                              cleanups, ran, op, got, signalled, done, 
-                             verdictFailed, registered, stack >>
+                             verdictFailed, registered, stack, n >>
 
 c12(self) == /\ pc[self] = "c12"
              /\ got' = [got EXCEPT ![self] = c[self]]
@@ -317,7 +338,7 @@ c12(self) == /\ pc[self] = "c12"
              /\ stack' = [stack EXCEPT ![self] = Tail(stack[self])]
              /\ UNCHANGED << readers, ctx, nextCtx, cancelled, cleaning, 
                              failed, cleanups, ran, acc, op, signalled, done, 
-                             verdictFailed, registered >>
+                             verdictFailed, registered, n >>
 
 Context(self) == c1(self) \/ c2(self) \/ c3(self) \/ c4(self) \/ c5(self)
                     \/ c6(self) \/ c7(self) \/ c8(self) \/ c9(self)
@@ -334,14 +355,14 @@ k1(self) == /\ pc[self] = "k1"
             /\ pc' = [pc EXCEPT ![self] = "k2"]
             /\ UNCHANGED << ctx, nextCtx, cancelled, cleaning, failed, 
                             cleanups, ran, acc, op, got, signalled, done, 
-                            verdictFailed, registered, stack, c >>
+                            verdictFailed, registered, stack, c, n >>
 
 k2(self) == /\ pc[self] = "k2"
             /\ acc' = [acc EXCEPT !["cleanups"] = acc["cleanups"] \cup {<<self, "w">>}]
             /\ pc' = [pc EXCEPT ![self] = "k3"]
             /\ UNCHANGED << writer, readers, ctx, nextCtx, cancelled, cleaning, 
                             failed, cleanups, ran, op, got, signalled, done, 
-                            verdictFailed, registered, stack, c >>
+                            verdictFailed, registered, stack, c, n >>
 
 k3(self) == /\ pc[self] = "k3"
             /\ cleanups' = Append(cleanups, self)
@@ -350,7 +371,7 @@ k3(self) == /\ pc[self] = "k3"
             /\ pc' = [pc EXCEPT ![self] = "k4"]
             /\ UNCHANGED << writer, readers, ctx, nextCtx, cancelled, cleaning, 
                             failed, ran, op, got, signalled, done, 
-                            verdictFailed, stack, c >>
+                            verdictFailed, stack, c, n >>
 
 k4(self) == /\ pc[self] = "k4"
             /\ IF Variant = "reg_rlock"
@@ -362,7 +383,7 @@ k4(self) == /\ pc[self] = "k4"
             /\ stack' = [stack EXCEPT ![self] = Tail(stack[self])]
             /\ UNCHANGED << ctx, nextCtx, cancelled, cleaning, failed, 
                             cleanups, ran, acc, op, got, signalled, done, 
-                            verdictFailed, registered, c >>
+                            verdictFailed, registered, c, n >>
 
 Cleanup(self) == k1(self) \/ k2(self) \/ k3(self) \/ k4(self)
 
@@ -372,21 +393,21 @@ q1(self) == /\ pc[self] = "q1"
             /\ pc' = [pc EXCEPT ![self] = "q2"]
             /\ UNCHANGED << writer, ctx, nextCtx, cancelled, cleaning, failed, 
                             cleanups, ran, acc, op, got, signalled, done, 
-                            verdictFailed, registered, stack, c >>
+                            verdictFailed, registered, stack, c, n >>
 
 q2(self) == /\ pc[self] = "q2"
             /\ acc' = [acc EXCEPT !["failed"] = acc["failed"] \cup {<<self, "r">>}]
             /\ pc' = [pc EXCEPT ![self] = "q3"]
             /\ UNCHANGED << writer, readers, ctx, nextCtx, cancelled, cleaning, 
                             failed, cleanups, ran, op, got, signalled, done, 
-                            verdictFailed, registered, stack, c >>
+                            verdictFailed, registered, stack, c, n >>
 
 q3(self) == /\ pc[self] = "q3"
             /\ acc' = [acc EXCEPT !["failed"] = acc["failed"] \ {<<self, "r">>}]
             /\ pc' = [pc EXCEPT ![self] = "q4"]
             /\ UNCHANGED << writer, readers, ctx, nextCtx, cancelled, cleaning, 
                             failed, cleanups, ran, op, got, signalled, done, 
-                            verdictFailed, registered, stack, c >>
+                            verdictFailed, registered, stack, c, n >>
 
 q4(self) == /\ pc[self] = "q4"
             /\ readers' = readers \ {self}
@@ -394,7 +415,7 @@ q4(self) == /\ pc[self] = "q4"
             /\ stack' = [stack EXCEPT ![self] = Tail(stack[self])]
             /\ UNCHANGED << writer, ctx, nextCtx, cancelled, cleaning, failed, 
                             cleanups, ran, acc, op, got, signalled, done, 
-                            verdictFailed, registered, c >>
+                            verdictFailed, registered, c, n >>
 
 FailedQ(self) == q1(self) \/ q2(self) \/ q3(self) \/ q4(self)
 
@@ -405,7 +426,7 @@ pick(self) == /\ pc[self] = "pick"
               /\ UNCHANGED << writer, readers, ctx, nextCtx, cancelled, 
                               cleaning, failed, cleanups, ran, acc, got, 
                               signalled, done, verdictFailed, registered, 
-                              stack, c >>
+                              stack, c, n >>
 
 run(self) == /\ pc[self] = "run"
              /\ IF op[self] = "errorf"
@@ -433,35 +454,46 @@ run(self) == /\ pc[self] = "run"
                                    /\ c' = c
              /\ UNCHANGED << writer, readers, ctx, nextCtx, cancelled, 
                              cleaning, failed, cleanups, ran, acc, op, got, 
-                             signalled, done, verdictFailed, registered >>
+                             signalled, done, verdictFailed, registered, n >>
 
 fin(self) == /\ pc[self] = "fin"
              /\ done' = (done \cup {self})
              /\ pc' = [pc EXCEPT ![self] = "Done"]
              /\ UNCHANGED << writer, readers, ctx, nextCtx, cancelled, 
                              cleaning, failed, cleanups, ran, acc, op, got, 
-                             signalled, verdictFailed, registered, stack, c >>
+                             signalled, verdictFailed, registered, stack, c, n >>
 
 w(self) == pick(self) \/ run(self) \/ fin(self)
 
 m0(self) == /\ pc[self] = "m0"
             /\ stack' = [stack EXCEPT ![self] = << [ procedure |->  "Context",
-                                                     pc        |->  "join",
+                                                     pc        |->  "m1",
                                                      c         |->  c[self] ] >>
                                                  \o stack[self]]
             /\ c' = [c EXCEPT ![self] = 0]
             /\ pc' = [pc EXCEPT ![self] = "c1"]
             /\ UNCHANGED << writer, readers, ctx, nextCtx, cancelled, cleaning, 
                             failed, cleanups, ran, acc, op, got, signalled, 
-                            done, verdictFailed, registered >>
+                            done, verdictFailed, registered, n >>
+
+m1(self) == /\ pc[self] = "m1"
+            /\ IF Late
+                  THEN /\ cleanups' = <<Main>>
+                       /\ registered' = {Main}
+                  ELSE /\ TRUE
+                       /\ UNCHANGED << cleanups, registered >>
+            /\ pc' = [pc EXCEPT ![self] = "join"]
+            /\ UNCHANGED << writer, readers, ctx, nextCtx, cancelled, cleaning, 
+                            failed, ran, acc, op, got, signalled, done, 
+                            verdictFailed, stack, c, n >>
 
 join(self) == /\ pc[self] = "join"
-              /\ done = Workers
+              /\ Late \/ done = Workers
               /\ pc' = [pc EXCEPT ![self] = "e1"]
               /\ UNCHANGED << writer, readers, ctx, nextCtx, cancelled, 
                               cleaning, failed, cleanups, ran, acc, op, got, 
                               signalled, done, verdictFailed, registered, 
-                              stack, c >>
+                              stack, c, n >>
 
 e1(self) == /\ pc[self] = "e1"
             /\ writer = -1
@@ -469,14 +501,14 @@ e1(self) == /\ pc[self] = "e1"
             /\ pc' = [pc EXCEPT ![self] = "e2"]
             /\ UNCHANGED << writer, ctx, nextCtx, cancelled, cleaning, failed, 
                             cleanups, ran, acc, op, got, signalled, done, 
-                            verdictFailed, registered, stack, c >>
+                            verdictFailed, registered, stack, c, n >>
 
 e2(self) == /\ pc[self] = "e2"
             /\ acc' = [acc EXCEPT !["failed"] = acc["failed"] \cup {<<self, "r">>}]
             /\ pc' = [pc EXCEPT ![self] = "e3"]
             /\ UNCHANGED << writer, readers, ctx, nextCtx, cancelled, cleaning, 
                             failed, cleanups, ran, op, got, signalled, done, 
-                            verdictFailed, registered, stack, c >>
+                            verdictFailed, registered, stack, c, n >>
 
 e3(self) == /\ pc[self] = "e3"
             /\ verdictFailed' = failed
@@ -484,21 +516,21 @@ e3(self) == /\ pc[self] = "e3"
             /\ pc' = [pc EXCEPT ![self] = "e4"]
             /\ UNCHANGED << writer, readers, ctx, nextCtx, cancelled, cleaning, 
                             failed, cleanups, ran, op, got, signalled, done, 
-                            registered, stack, c >>
+                            registered, stack, c, n >>
 
 e4(self) == /\ pc[self] = "e4"
             /\ readers' = readers \ {self}
             /\ pc' = [pc EXCEPT ![self] = "u0"]
             /\ UNCHANGED << writer, ctx, nextCtx, cancelled, cleaning, failed, 
                             cleanups, ran, acc, op, got, signalled, done, 
-                            verdictFailed, registered, stack, c >>
+                            verdictFailed, registered, stack, c, n >>
 
 u0(self) == /\ pc[self] = "u0"
             /\ cleaning' = TRUE
             /\ pc' = [pc EXCEPT ![self] = "u1"]
             /\ UNCHANGED << writer, readers, ctx, nextCtx, cancelled, failed, 
                             cleanups, ran, acc, op, got, signalled, done, 
-                            verdictFailed, registered, stack, c >>
+                            verdictFailed, registered, stack, c, n >>
 
 u1(self) == /\ pc[self] = "u1"
             /\ writer = -1 /\ readers = {}
@@ -506,14 +538,14 @@ u1(self) == /\ pc[self] = "u1"
             /\ pc' = [pc EXCEPT ![self] = "u2"]
             /\ UNCHANGED << readers, ctx, nextCtx, cancelled, cleaning, failed, 
                             cleanups, ran, acc, op, got, signalled, done, 
-                            verdictFailed, registered, stack, c >>
+                            verdictFailed, registered, stack, c, n >>
 
 u2(self) == /\ pc[self] = "u2"
             /\ acc' = [acc EXCEPT !["ctx"] = acc["ctx"] \cup {<<self, "w">>}]
             /\ pc' = [pc EXCEPT ![self] = "u3"]
             /\ UNCHANGED << writer, readers, ctx, nextCtx, cancelled, cleaning, 
                             failed, cleanups, ran, op, got, signalled, done, 
-                            verdictFailed, registered, stack, c >>
+                            verdictFailed, registered, stack, c, n >>
 
 u3(self) == /\ pc[self] = "u3"
             /\ IF ctx # 0
@@ -525,21 +557,54 @@ u3(self) == /\ pc[self] = "u3"
             /\ pc' = [pc EXCEPT ![self] = "u4"]
             /\ UNCHANGED << writer, readers, nextCtx, cleaning, failed, 
                             cleanups, ran, op, got, signalled, done, 
-                            verdictFailed, registered, stack, c >>
+                            verdictFailed, registered, stack, c, n >>
 
 u4(self) == /\ pc[self] = "u4"
             /\ writer' = -1
             /\ pc' = [pc EXCEPT ![self] = "loop"]
             /\ UNCHANGED << readers, ctx, nextCtx, cancelled, cleaning, failed, 
                             cleanups, ran, acc, op, got, signalled, done, 
-                            verdictFailed, registered, stack, c >>
+                            verdictFailed, registered, stack, c, n >>
 
 loop(self) == /\ pc[self] = "loop"
-              /\ pc' = [pc EXCEPT ![self] = "p1"]
+              /\ pc' = [pc EXCEPT ![self] = "p0"]
               /\ UNCHANGED << writer, readers, ctx, nextCtx, cancelled, 
                               cleaning, failed, cleanups, ran, acc, op, got, 
                               signalled, done, verdictFailed, registered, 
-                              stack, c >>
+                              stack, c, n >>
+
+p0(self) == /\ pc[self] = "p0"
+            /\ IF Variant = "pop_stale"
+                  THEN /\ writer = -1
+                       /\ readers' = (readers \cup {self})
+                       /\ pc' = [pc EXCEPT ![self] = "s1"]
+                  ELSE /\ pc' = [pc EXCEPT ![self] = "p1"]
+                       /\ UNCHANGED readers
+            /\ UNCHANGED << writer, ctx, nextCtx, cancelled, cleaning, failed, 
+                            cleanups, ran, acc, op, got, signalled, done, 
+                            verdictFailed, registered, stack, c, n >>
+
+s1(self) == /\ pc[self] = "s1"
+            /\ acc' = [acc EXCEPT !["cleanups"] = acc["cleanups"] \cup {<<self, "r">>}]
+            /\ pc' = [pc EXCEPT ![self] = "s2"]
+            /\ UNCHANGED << writer, readers, ctx, nextCtx, cancelled, cleaning, 
+                            failed, cleanups, ran, op, got, signalled, done, 
+                            verdictFailed, registered, stack, c, n >>
+
+s2(self) == /\ pc[self] = "s2"
+            /\ n' = [n EXCEPT ![self] = Len(cleanups)]
+            /\ acc' = [acc EXCEPT !["cleanups"] = acc["cleanups"] \ {<<self, "r">>}]
+            /\ pc' = [pc EXCEPT ![self] = "s3"]
+            /\ UNCHANGED << writer, readers, ctx, nextCtx, cancelled, cleaning, 
+                            failed, cleanups, ran, op, got, signalled, done, 
+                            verdictFailed, registered, stack, c >>
+
+s3(self) == /\ pc[self] = "s3"
+            /\ readers' = readers \ {self}
+            /\ pc' = [pc EXCEPT ![self] = "p1"]
+            /\ UNCHANGED << writer, ctx, nextCtx, cancelled, cleaning, failed, 
+                            cleanups, ran, acc, op, got, signalled, done, 
+                            verdictFailed, registered, stack, c, n >>
 
 p1(self) == /\ pc[self] = "p1"
             /\ writer = -1 /\ readers = {}
@@ -547,19 +612,23 @@ p1(self) == /\ pc[self] = "p1"
             /\ pc' = [pc EXCEPT ![self] = "p2"]
             /\ UNCHANGED << readers, ctx, nextCtx, cancelled, cleaning, failed, 
                             cleanups, ran, acc, op, got, signalled, done, 
-                            verdictFailed, registered, stack, c >>
+                            verdictFailed, registered, stack, c, n >>
 
 p2(self) == /\ pc[self] = "p2"
             /\ acc' = [acc EXCEPT !["cleanups"] = acc["cleanups"] \cup {<<self, "w">>}]
             /\ pc' = [pc EXCEPT ![self] = "p3"]
             /\ UNCHANGED << writer, readers, ctx, nextCtx, cancelled, cleaning, 
                             failed, cleanups, ran, op, got, signalled, done, 
-                            verdictFailed, registered, stack, c >>
+                            verdictFailed, registered, stack, c, n >>
 
 p3(self) == /\ pc[self] = "p3"
-            /\ IF Len(cleanups) > 0
-                  THEN /\ ran' = Append(ran, cleanups[Len(cleanups)])
-                       /\ cleanups' = SubSeq(cleanups, 1, Len(cleanups) - 1)
+            /\ IF Variant # "pop_stale"
+                  THEN /\ n' = [n EXCEPT ![self] = Len(cleanups)]
+                  ELSE /\ TRUE
+                       /\ n' = n
+            /\ IF n'[self] > 0
+                  THEN /\ ran' = Append(ran, cleanups[n'[self]])
+                       /\ cleanups' = SubSeq(cleanups, 1, n'[self] - 1)
                        /\ acc' = [acc EXCEPT !["cleanups"] = acc["cleanups"] \ {<<self, "w">>}]
                        /\ pc' = [pc EXCEPT ![self] = "p4"]
                   ELSE /\ acc' = [acc EXCEPT !["cleanups"] = acc["cleanups"] \ {<<self, "w">>}]
@@ -571,10 +640,19 @@ p3(self) == /\ pc[self] = "p3"
 
 p4(self) == /\ pc[self] = "p4"
             /\ writer' = -1
-            /\ pc' = [pc EXCEPT ![self] = "loop"]
+            /\ pc' = [pc EXCEPT ![self] = "p5"]
             /\ UNCHANGED << readers, ctx, nextCtx, cancelled, cleaning, failed, 
                             cleanups, ran, acc, op, got, signalled, done, 
-                            verdictFailed, registered, stack, c >>
+                            verdictFailed, registered, stack, c, n >>
+
+p5(self) == /\ pc[self] = "p5"
+            /\ IF ran[Len(ran)] = Main
+                  THEN /\ done = Workers
+                  ELSE /\ TRUE
+            /\ pc' = [pc EXCEPT ![self] = "loop"]
+            /\ UNCHANGED << writer, readers, ctx, nextCtx, cancelled, cleaning, 
+                            failed, cleanups, ran, acc, op, got, signalled, 
+                            done, verdictFailed, registered, stack, c, n >>
 
 u9(self) == /\ pc[self] = "u9"
             /\ writer' = -1
@@ -582,12 +660,14 @@ u9(self) == /\ pc[self] = "u9"
             /\ pc' = [pc EXCEPT ![self] = "Done"]
             /\ UNCHANGED << readers, ctx, nextCtx, cancelled, failed, cleanups, 
                             ran, acc, op, got, signalled, done, verdictFailed, 
-                            registered, stack, c >>
+                            registered, stack, c, n >>
 
-main(self) == m0(self) \/ join(self) \/ e1(self) \/ e2(self) \/ e3(self)
-                 \/ e4(self) \/ u0(self) \/ u1(self) \/ u2(self)
-                 \/ u3(self) \/ u4(self) \/ loop(self) \/ p1(self)
-                 \/ p2(self) \/ p3(self) \/ p4(self) \/ u9(self)
+main(self) == m0(self) \/ m1(self) \/ join(self) \/ e1(self) \/ e2(self)
+                 \/ e3(self) \/ e4(self) \/ u0(self) \/ u1(self)
+                 \/ u2(self) \/ u3(self) \/ u4(self) \/ loop(self)
+                 \/ p0(self) \/ s1(self) \/ s2(self) \/ s3(self)
+                 \/ p1(self) \/ p2(self) \/ p3(self) \/ p4(self)
+                 \/ p5(self) \/ u9(self)
 
 (* Allow infinite stuttering to prevent deadlock on termination. *)
 Terminating == /\ \A self \in ProcSet: pc[self] = "Done"
